@@ -40,6 +40,19 @@ pub fn generate(g: &mut Gen) {
             }
         }
     }
+    // max-pool over data without a positive entry (all negative; negative and zero): the maximum is the least negative value
+    for (k, st) in [((2usize, 2usize), (2usize, 2usize)), ((2, 3), (1, 2)), ((1, 1), (1, 1))] {
+        let net = NetSpec { input: Shape::Triple(2, 4, 6), builds: vec![Build::Layer(InnerSpec::Maxpool { k, s: st })], skipacc: "add".into(), loopacc: "mean".into(), opt: None, obj: "mse".into(), clamp: None };
+        for zero_too in [false, true] {
+            let mut x = input_for(g, &net.input);
+            if let Data::Triple(v) = &mut x.data {
+                let mut i = 0usize;
+                for m in v.iter_mut() { for r in m.iter_mut() { for e in r.iter_mut() { i += 1; *e = if zero_too && i % 5 == 0 { 0.0 } else { -(e.abs() + 0.01 * i as f32) }; } } }
+            }
+            g.push(format!("net {} forward {}", net.token(), qt(&x)), Tol::Tight, "maxpool/no-positive-entry", true);
+            g.push(format!("net {} predict {}", net.token(), qt(&x)), Tol::Tight, "maxpool/no-positive-entry", true);
+        }
+    }
     for act in ["relu", "leaky", "sigmoid", "tanh", "linear", "softmax"] {
         for bias in [true, false] {
             let spec = dense_spec(g, &cfg, 4, 3, act, bias);
